@@ -4,12 +4,15 @@
    [ao] is ListenArgs.authoritative_only, [resolve] the resolver of the running server
    (abstract: any function), [resolve_returns] says that it returns (a panic inside the
    resolver kills the task handling that message).  Replies are the messages
-   handle_raw_message returns; whether a reply reaches the wire also depends on
-   `to_octets` succeeding: C09_udp_512_tc_exact / C09_tcp_prefix_exact /
-   C09_framing_never_panics are about replies that serialise, and
-   C09_unserialisable_reply_witness shows one that does not (known finding:
-   it is dropped).  "Does not crash and keeps serving" is observed on the real
-   binary by the check, not proved here. *)
+   handle_raw_message returns.  Every such reply reaches the wire
+   (C09_udp_served_or_silence, C09_tcp_served: no premise about `to_octets`): when it cannot
+   be serialised the listeners send its SERVFAIL stand-in (unserialisable_fallback, /repo
+   commit 35946be), which always can (C09_fallback_encodes);
+   C09_unserialisable_reply_servfail_witness shows the configuration of the former finding
+   unserialisable-reply-silence answered that way.  C09_udp_512_tc_exact /
+   C09_tcp_prefix_exact / C09_framing_never_panics describe the framing of whatever was
+   serialised.  "Does not crash and keeps serving" is observed on the real binary by the
+   check, not proved here. *)
 From RV Require Import Base.Prelude Base.Cursor Name.NameModel Wire.WireTypes Wire.WireModel
      Wire.WireDecodeProofs Zone.ZoneModel Resolver.LocalModel
      Server.ServerModel Server.ServerSpec Server.ServerProofs.
@@ -27,6 +30,61 @@ Theorem C09_reply_or_silence :
                        /\ wire_id bs = Some (h_id (m_header r))).
 Proof. exact reply_or_silence. Qed.
 Print Assumptions C09_reply_or_silence.
+
+(* the same at the level of datagrams, with NO premise that the reply can be serialised: a
+   datagram (as cut by the 512-octet receive buffer) that is not silent input gets exactly one
+   datagram back; it is the framing of the serialisation of the reply [r] handle_raw_message
+   built -- QR set, same ID -- or, when `to_octets` refuses [r] (an RDATA or a section count
+   above 65535), of its SERVFAIL stand-in: same id / QR / opcode / TC / RD / RA / questions, AA
+   clear, RCODE SERVFAIL, no records ([sent_for], [servfail_of] in ServerSpec.v) *)
+Theorem C09_udp_served_or_silence :
+  forall (ao : bool) (resolve : bool -> question -> res rerror resolved),
+    (forall r q, resolve r q <> Panic /\ resolve r q <> OutOfFuel) ->
+    forall datagram, bytes_ok datagram ->
+      let bs := firstn (N.to_nat 512) datagram in
+      (silent_input bs /\ serve_udp ao resolve datagram = Ok None)
+      \/ (~ silent_input bs
+          /\ exists r sent wire out,
+               handle_raw_message ao resolve bs = Ok (Some r)
+               /\ h_qr (m_header r) = true /\ wire_id bs = Some (h_id (m_header r))
+               /\ sent_for r sent /\ encode sent = Ok wire /\ send_udp_bytes_to wire = Ok out
+               /\ serve_udp ao resolve datagram = Ok (Some out)).
+Proof. exact udp_served_or_silence. Qed.
+Print Assumptions C09_udp_served_or_silence.
+
+(* ... and for one TCP connection: whenever a reply message is determined (by
+   C09_tcp_short_read / C09_reply_or_silence) something is written, the reply or its stand-in;
+   otherwise nothing is *)
+Theorem C09_tcp_served :
+  forall (ao : bool) (resolve : bool -> question -> res rerror resolved),
+    (forall r q, resolve r q <> Panic /\ resolve r q <> OutOfFuel) ->
+    forall stream e, bytes_ok stream ->
+      (tcp_reply_message ao resolve stream e = Ok None -> serve_tcp ao resolve stream e = Ok None)
+      /\ (forall r, tcp_reply_message ao resolve stream e = Ok (Some r) ->
+            exists sent wire out,
+              sent_for r sent /\ encode sent = Ok wire /\ send_tcp_bytes wire = Ok out
+              /\ serve_tcp ao resolve stream e = Ok (Some out)).
+Proof. exact tcp_served. Qed.
+Print Assumptions C09_tcp_served.
+
+(* why the stand-in can always be sent: it has no records, and the id, opcode and questions of a
+   reply come out of a decoded message or are those of a FORMERR reply ([fallback_ok]: 16-bit
+   id, 4-bit opcode, well-formed questions, fewer than 65536 of them) *)
+Theorem C09_fallback_encodes :
+  (forall bs m, bytes_ok bs -> decode bs = Ok m -> fallback_ok m)
+  /\ (forall ao resolve, (forall r q, resolve r q <> Panic /\ resolve r q <> OutOfFuel) ->
+        forall bs r, bytes_ok bs -> handle_raw_message ao resolve bs = Ok (Some r) -> fallback_ok r)
+  /\ (forall r, fallback_ok r ->
+        servfail_of r (unserialisable_fallback r)
+        /\ exists wire, encode (unserialisable_fallback r) = Ok wire
+                        /\ bytes_ok wire /\ decode wire = Ok (unserialisable_fallback r)).
+Proof.
+  split; [exact decoded_fallback_ok|]. split; [exact handle_fallback_ok|].
+  intros r H. split; [apply fallback_shape|].
+  destruct (fallback_encodes r H) as (wire & E). exists wire. split; [exact E|].
+  exact (fallback_roundtrip r wire H E).
+Qed.
+Print Assumptions C09_fallback_encodes.
 
 Theorem C09_reply_echo :
   forall ao resolve, (forall r q, resolve r q <> Panic /\ resolve r q <> OutOfFuel) ->
@@ -148,11 +206,20 @@ Theorem C09_known_referral_witness :
 Proof. exact known_referral_witness. Qed.
 Print Assumptions C09_known_referral_witness.
 
-Theorem C09_unserialisable_reply_witness :
-  exists zs cget bs r e,
+(* the configuration of the former finding unserialisable-reply-silence (example.com with
+   big.example.com TXT of 65536 octets; query `big.example.com TXT`, id 7): the reply cannot be
+   serialised and both listeners answer with SERVFAIL -- id 7, QR set, the question echoed, no
+   records; over UDP the serialisation itself, over TCP behind its length prefix *)
+Theorem C09_unserialisable_reply_servfail_witness :
+  exists zs cget bs q r e f wire,
     handle_raw_message true (fun _ => resolve_authoritative_only zs cget) bs = Ok (Some r)
     /\ encode r = Err e
-    /\ serve_udp true (fun _ => resolve_authoritative_only zs cget) bs = Ok None
-    /\ serve_tcp true (fun _ => resolve_authoritative_only zs cget) (u16_bytes (llen bs) ++ bs) EndEof = Ok None.
-Proof. exact unserialisable_reply_witness. Qed.
-Print Assumptions C09_unserialisable_reply_witness.
+    /\ servfail_of r f /\ encode f = Ok wire /\ decode wire = Ok f
+    /\ wire_id bs = Some 7 /\ h_id (m_header f) = 7 /\ h_qr (m_header f) = true
+    /\ h_rcode (m_header f) = RCODE_ServerFailure /\ h_aa (m_header f) = false
+    /\ m_questions f = [q] /\ m_answers f = [] /\ m_authority f = [] /\ m_additional f = []
+    /\ serve_udp true (fun _ => resolve_authoritative_only zs cget) bs = Ok (Some wire)
+    /\ serve_tcp true (fun _ => resolve_authoritative_only zs cget) (u16_bytes (llen bs) ++ bs) EndEof
+       = Ok (Some (u16_bytes (llen wire) ++ wire)).
+Proof. exact unserialisable_reply_servfail_witness. Qed.
+Print Assumptions C09_unserialisable_reply_servfail_witness.
